@@ -268,7 +268,13 @@ func dischargeAll(jobs []solveJob, workDir string, quickS, fullS int, all bool, 
 					o.Status, o.Backend = "proved", "trivial"
 					continue
 				}
-				q := j.vc.buildQuery(o, j.heap0, "", true)
+				extra := ""
+				if j.vc.excused != nil {
+					if ex := j.vc.excuseFor(o.Name); ex != nil {
+						extra = "(not " + ex.term.S + ")"
+					}
+				}
+				q := j.vc.buildQuery(o, j.heap0, extra, true)
 				o.Bytes = len(q)
 				if len(q) > 256*1024 {
 					o.Status = "error"
